@@ -9,6 +9,9 @@ Tie: the real `persim.wasserstein.wasserstein` against
        residual graph, exact Hungarian as a fallback) and verified by the Lean checker `cert.dual`
        (theorems `dual_cert_sound` / `dualCheck_sound`),
 and the two warnings against the model's flags.
+[T] `lsa_contract`: every matrix the real routine hands to scipy's linear_sum_assignment is observed in-process
+and the returned assignment is compared with that matrix's optimum, certified the same way (the solver's
+optimality is a parameter of the theorems, so it is exercised on every run instead of being proved).
 On a disagreement the specification itself is evaluated on the real code's input (Lean `spec.ws`, an
 independent Python enumeration of partial matchings, a certified optimum of a matrix built from the
 definition for large sizes) to decide whether the *property* fails there.
@@ -113,6 +116,43 @@ def run_code(case):
                 st, v = "err", type(e).__name__
     msgs = [str(x.message) for x in w]
     return st, v, any("dgm1" in m for m in msgs), any("dgm2" in m for m in msgs)
+
+
+class _OptProxy:
+    """stands in for the `optimize` module inside persim.wasserstein: records every call of
+       linear_sum_assignment (matrix, result) and forwards it unchanged"""
+
+    def __init__(self, real, log):
+        self._real, self._log = real, log
+
+    def linear_sum_assignment(self, D, *a, **k):
+        res = self._real.linear_sum_assignment(D, *a, **k)
+        try:
+            self._log.append((np.array(D, dtype=float, copy=True), [int(x) for x in res[0]], [int(x) for x in res[1]]))
+        except Exception:
+            pass
+        return res
+
+    def __getattr__(self, name):
+        return getattr(self._real, name)
+
+
+class lsa_recorder:
+    """context manager: observe the solver calls of the real routine ([T] stream `lsa_contract`)"""
+
+    def __init__(self):
+        self.log = []
+
+    def __enter__(self):
+        self.mod = common.pm("wasserstein")
+        self.real = getattr(self.mod, "optimize", None)
+        if self.real is not None and hasattr(self.real, "linear_sum_assignment"):
+            self.mod.optimize = _OptProxy(self.real, self.log)
+        return self
+
+    def __exit__(self, *a):
+        if self.real is not None:
+            self.mod.optimize = self.real
 
 
 def scale_of(case):
@@ -357,7 +397,6 @@ ANCHOR_DIGEST = "23f9a8a5b5293f05"       # structural digest of `wasserstein` wh
 
 
 def run(ctx):
-    r = ctx.rng
     cases = [dict(c) for c in CORPUS]
     digest = common.source_digest(ANCHOR, ["wasserstein"])
     ctx.extra["anchor_digest"] = {"file": ANCHOR, "now": digest, "modelled": ANCHOR_DIGEST}
@@ -365,19 +404,27 @@ def run(ctx):
     if digest != ANCHOR_DIGEST:         # rewritten code is explored harder (DESIGN.md 3.2); not a violation
         ctx.count("anchor_changed_budget_x3")
         boost = 3
-    n_small = ctx.n(2500, 24000) * boost
-    n_mid = ctx.n(0, 4000) * boost
-    n_big = ctx.n(0, 700) * boost
+    n_small = ctx.n(2500, 36000) * boost
+    n_mid = ctx.n(0, 6000) * boost
+    n_big = ctx.n(0, 1200) * boost
     cases += [gen_pair(ctx, 7) for _ in range(n_small)]
     cases += [gen_pair(ctx, 16) for _ in range(n_mid)]
     cases += [gen_pair(ctx, 40) for _ in range(n_big)]
 
     # 1. the real code first (line coverage of the anchored file measured on a slice)
     ncov = min(len(cases), 300)
-    with common.LineCov([ANCHOR]) as cov:
-        codes = [run_code(c) for c in cases[:ncov]]
-    ctx.extra["anchored_line_coverage"] = cov.summary()
-    codes += [run_code(c) for c in cases[ncov:]]
+    codes, observed = [], []
+    with lsa_recorder() as rec:
+        def one(c):
+            n0 = len(rec.log)
+            codes.append(run_code(c))
+            observed.append(rec.log[n0:])
+        with common.LineCov([ANCHOR]) as cov:
+            for c in cases[:ncov]:
+                one(c)
+        ctx.extra["anchored_line_coverage"] = cov.summary()
+        for c in cases[ncov:]:
+            one(c)
 
     # 2. the model: its matrix at every size, its exhaustive value where small
     lines, slots = [], []
@@ -402,10 +449,24 @@ def run(ctx):
         line, claimed = certificate(ctx, Df)
         cert_lines.append(line)
         claims.append(claimed)
+    # 3b. [T] lsa_contract: the optimum of every matrix the real routine handed to scipy, certified the same way
+    obs_slots = []
+    for obs in observed:
+        sl = []
+        for (Dc, ri, ci) in obs:
+            if Dc.ndim == 2 and Dc.shape[0] == Dc.shape[1] and Dc.shape[0] > 0 and not np.isnan(Dc).any() \
+                    and not np.isneginf(Dc).any():
+                try:
+                    line, claimed = certificate(None, Dc.tolist())
+                except HarnessError:
+                    continue                      # no finite assignment: outside the contract
+                sl.append((len(cert_lines), claimed, Dc, ri, ci))
+                cert_lines.append(line)
+        obs_slots.append(sl)
     cert_answers = ask(cert_lines)
 
     # 4. compare
-    for c, code, slot, cans, claimed in zip(cases, codes, slots, cert_answers, claims):
+    for c, code, slot, cans, claimed, obs in zip(cases, codes, slots, cert_answers, claims, obs_slots):
         m, n, M, N = sizes_of(c)
         ans = answers[slot["matrix"]]
         model_w = (ans[0], ans[1])
@@ -448,6 +509,22 @@ def run(ctx):
                     problems.append(("ws.exh", v, float(e[2])))
         if (c1, c2) != model_w:
             problems.append(("warnings", [c1, c2], list(model_w)))
+        if not obs:
+            ctx.count("lsa_call_not_observed")
+        for (k, oclaimed, Dc, ri, ci) in obs:
+            opt = checked(cert_answers[k], oclaimed)
+            nn = Dc.shape[0]
+            okc = ri == list(range(nn)) and sorted(ci) == list(range(nn)) and all(math.isfinite(Dc[i, ci[i]]) for i in range(nn))
+            if okc:
+                got = sum(Fraction(float(Dc[i, ci[i]])) for i in range(nn))
+                if got == opt:
+                    ctx.count("lsa_contract:exactly_optimal")
+                else:
+                    ctx.count("lsa_contract:optimal_up_to_rounding")
+                okc = got >= opt and float(got - opt) <= 1e-9 * max(scale, float(opt))
+            ctx.test("lsa_contract", okc)
+            if not okc:
+                problems.append(("lsa_contract", "assignment returned by scipy: rows %r cols %r" % (ri, ci), "certified optimum %s" % float(opt)))
         if problems:
             fails, why = property_fails(c, code)
             op, cv, mv = problems[0]
@@ -493,12 +570,14 @@ MANIFEST = {
             "'returns a minimum-cost perfect assignment when a finite one exists'. scipy.optimize.linear_sum_assignment's optimality is "
             "that parameter of the theorem: it is not proved, it is certified on every run - the value of the real code is compared with "
             "an optimum certified by exact rational dual potentials that a Lean-proved checker (dual_cert_sound/dualCheck_sound, weak "
-            "duality) accepts, and with the model's exhaustive optimum when M+N<=8. sqrt and cos(pi/4)=sin(pi/4) are parameters with "
+            "duality) accepts, and with the model's exhaustive optimum when M+N<=8 (the exhaustive solver is itself proved to meet the "
+            "contract, exhLsa_contract, so that value is the specification's by theorem). sqrt and cos(pi/4)=sin(pi/4) are parameters with "
             "their algebraic contracts (sqrt x >= 0, sqrt x * sqrt x = x for x >= 0; c >= 0, c*c = 1/2), instantiated at the reals.",
     "note": "Trusted: Lean kernel + Mathlib (axioms propext/Classical.choice/Quot.sound); the correspondence harness; scipy's "
             "linear_sum_assignment contract (certified per run, not proved); sklearn pairwise_distances = Euclidean distance up to "
-            "rounding (expanded formula, hence tolerance 1e-6*scale); IEEE rounding is outside the theorems. [T]: nothing beyond the "
-            "correspondence itself.",
+            "rounding (expanded formula, hence tolerance 1e-6*scale); IEEE rounding is outside the theorems. [T] lsa_contract: every "
+            "matrix the real routine hands to scipy is observed in-process and the assignment scipy returned is compared with that "
+            "matrix's optimum, certified by the same Lean-checked dual certificate.",
     "technique": "Lean 4 theorems over a hand-written model with the solver as a contract parameter + differential correspondence "
                  "with Lean-verified dual certificates",
 }
